@@ -120,13 +120,15 @@ def mutations(r, d, others, wrong_key, quick, special_pubs=()):
     n = len(d)
     if quick:
         pos = sorted(set(r.randrange(n * 8) for _ in range(40)))
-    else:   # every bit of the header (prefix, message id, key field start) and of the signature, a sample of the rest
-        pos = sorted(set(list(range(min(n, 40) * 8)) + list(range(max(0, n - 64) * 8, n * 8)) + [r.randrange(n * 8) for _ in range(500)]))
+    else:   # every bit of the header (prefix, message id, start of the key field), a sample of the signature and of the rest
+        pos = sorted(set(list(range(min(n, 30) * 8)) + [r.randrange(max(0, n - 64) * 8, n * 8) for _ in range(64)] +
+                         [r.randrange(n * 8) for _ in range(150)]))
     for p in pos:
         b = bytearray(d)
         b[p // 8] ^= 1 << (p % 8)
         out.append(("bitflip", bytes(b)))
-    cuts = range(n) if not quick else sorted(set([0, 22, 23, 24, 25, n - 65, n - 64, n - 63, n - 1] + [r.randrange(n) for _ in range(20)]))
+    edge = [0, 22, 23, 24, 25, n - 65, n - 64, n - 63, n - 1]
+    cuts = sorted(set(edge + [r.randrange(n) for _ in range(20 if quick else 70)]))
     for k in cuts:
         out.append(("truncate", d[:k]))
     for extra in (b"\x00", b"\xff" * 3, r.randbytes(64)):
@@ -271,7 +273,8 @@ async def _run(ctx, ttext):
         for j, ov2 in enumerate(B.overlays):
             if j != i:
                 muts.append(("replay-into-other-overlay", ov2.get_prefix() + d[22:]))
-        for (mname, md, known_mode) in [(a, b, km) for (a, b) in muts for km in (False, True)]:
+        for (mname, md, known_mode) in [(a, b, km) for j, (a, b) in enumerate(muts) for km in (False, True)
+                                        if not km or ctx.quick or a not in ("bitflip", "truncate") or j % 3 == 0]:
             # mode 1: forget the peers named by the datagram's key field (in every overlay of the receiver), so that a
             # verified-peer entry created by this very datagram is observable;
             # mode 2: the named key already is a verified peer of the receiver (at another address): an unauthentic
